@@ -1,6 +1,6 @@
 (* Model/Exec.v -- the codec models and specs instantiated with the Gallina AES-128 / AES-CMAC,
    for execution (extraction) -- this is the "independent implementation of LoRaWAN cryptography". *)
-From LoraV Require Import Base.Bytes Crypto.AES Crypto.CMAC Model.Frame Spec.L2Frame.
+From LoraV Require Import Base.Bytes Crypto.AES Crypto.CMAC Model.Frame Spec.L2Frame Model.Region Model.Mac.
 
 Definition x_build_data := build_data aes_enc aes_mac.
 Definition x_build_join_request := build_join_request aes_mac.
@@ -23,3 +23,10 @@ Definition x_spec_join_accept := spec_join_accept aes_dec aes_mac.
 Definition x_spec_session_key := spec_session_key aes_enc.
 Definition x_spec_mic := spec_mic aes_mac.
 Definition x_wf_wire := wf_wire.
+
+Definition x_join_otaa := join_otaa aes_mac.
+Definition x_send := send aes_enc aes_mac.
+Definition x_mac_handle_rx := mac_handle_rx aes_enc aes_mac.
+Definition x_mac_rx2_complete := mac_rx2_complete.
+Definition x_rxc_config := rxc_config.
+Definition x_next_fcnt_down := next_fcnt_down.
